@@ -72,6 +72,10 @@ def probe_policies(py4hw):
     return {'mid': mid, 'eqw': eqw, 'probed': {'xor2_internal_widths': mids, 'equal_xor_width': eqws}}
 
 
+# the formulas the headline theorems of Properties/C08.v are stated for (current /repo); the probe must find exactly these
+HEADLINE_POLICIES = {'mid': 'mid_max', 'eqw': 'eqw_max'}
+
+
 def catalogue(py4hw, quick, pol=None):
     """list of Block.  pol: result of probe_policies (default: probe now).  configs are chosen so that the full truth table is small for the first ones of each block
     (arity <= 5 x width <= 3) and random / boundary inputs are used beyond (decided by the driver from the bit count)."""
@@ -95,7 +99,7 @@ def catalogue(py4hw, quick, pol=None):
             cfgs += [dict(wa=3, wb=2, wr=4), dict(wa=2, wb=3, wr=1), dict(wa=1, wb=4, wr=3)]
         else:       # gates with internal wires of a's width: r no wider than a
             cfgs += [dict(wa=3, wb=3, wr=2), dict(wa=4, wb=2, wr=3)]
-        if cls == 'Xor2' and MID == 'mid_max':      # repaired Xor2: any mix of widths
+        if cls == 'Xor2':      # any mix of widths (legal since the repair c94f404; a tree whose Xor2 has a's-width internals fails here with a concrete input)
             cfgs += [dict(wa=1, wb=1, wr=2), dict(wa=1, wb=2, wr=2), dict(wa=2, wb=3, wr=4), dict(wa=2, wb=1, wr=3), dict(wa=1, wb=3, wr=2), dict(wa=8, wb=3, wr=12)]
         B.append(Block(cls, build, model, spec, lambda c: [c['wa'], c['wb']], cfgs))
     gate2('And2', 'And2_m', 'and2_spec', True)
@@ -129,7 +133,7 @@ def catalogue(py4hw, quick, pol=None):
         cfgs = [dict(n=n, wi=w, w=w) for n in range(min_n, 6) for w in (1, 2, 3)]
         cfgs += [dict(n=7, wi=5, w=5), dict(n=9, wi=1, w=1), dict(n=3, wi=32, w=32), dict(n=12, wi=8, w=8), dict(n=4, wi=4, w=3), dict(n=3, wi=3, w=2)]
         if cls in ('And', 'Or'): cfgs += [dict(n=3, wi=2, w=4), dict(n=1, wi=2, w=4), dict(n=1, wi=4, w=2)]
-        if cls == 'Xor' and MID == 'mid_max': cfgs += [dict(n=3, wi=2, w=4), dict(n=2, wi=1, w=3), dict(n=4, wi=1, w=2)]
+        if cls == 'Xor': cfgs += [dict(n=3, wi=2, w=4), dict(n=2, wi=1, w=3), dict(n=4, wi=1, w=2)]
         if not quick: cfgs += [dict(n=n, wi=w, w=w) for n in (6, 10, 17, 33) for w in (1, 2, 6)]
         B.append(Block(cls, build, lambda c: '(fun l : list Z => [%s l])' % mfun(c), lambda c: '(fun l : list Z => [%s %d l])' % (sname, c['w']),
                        lambda c: [c['wi']] * c['n'], cfgs))
@@ -282,7 +286,7 @@ def catalogue(py4hw, quick, pol=None):
     def b_equal(hw, c):
         a, b, r = hw.wire('a', c['w']), hw.wire('b', c.get('wb', c['w'])), hw.wire('r', 1); L.Equal(hw, 'dut', a, b, r); return [a, b], [r]
     eq_cfgs = [dict(w=w) for w in (1, 2, 3, 4, 5, 8, 16, 32, 64)] + [dict(w=3, wb=2), dict(w=4, wb=1), dict(w=2, wb=1)]      # b no wider than a
-    if EQW == 'eqw_max':       # repaired Equal claims any two widths (correct only on a repaired Xor2: committing the Equal repair alone is flagged)
+    if True:       # any two operand widths (legal since the repairs c94f404 + 3260a32)
         eq_cfgs += [dict(w=1, wb=2), dict(w=2, wb=3), dict(w=1, wb=4), dict(w=3, wb=5), dict(w=8, wb=11)]
     B.append(Block('Equal', b_equal, lambda c: lam(2, '[Equal_m %s %s %d %d x0 x1]' % (MID, EQW, c['w'], c.get('wb', c['w']))), lambda c: lam(2, '[equal_spec x0 x1]'),
                    lambda c: [c['w'], c.get('wb', c['w'])], eq_cfgs))
